@@ -267,6 +267,7 @@ func simC20(c *sim.Ctx) {
 			conSteps++
 			b.Step(con, func() { readOnce(size) })
 		}
+		c.State(c.Fingerprint()) // the sequence of controller choices = the interleaving
 		b.Settle()
 		for k := 0; k < 20 && (asm.Yielded() || con.Yielded()); k++ {
 			// nothing else is enabled: let whoever is parked at a hook go on
